@@ -303,7 +303,9 @@ impl Check for C17 {
     fn gen(&self, seed: u64, i: u64, _tier: Tier) -> Value {
         let r = Rng::new(crate::harness::case_seed(seed, "C17", i));
         let setups: Vec<Setup> = Setup::all_extended();
-        let setup = setups[(i % setups.len() as u64) as usize].clone();
+        let mut setup = setups[(i % setups.len() as u64) as usize].clone();
+        // not always the default output directory (a fall-back to defaults must be visible)
+        setup.out = ["app/src/generated", "app/src/bindings", "app/src/lib/api"][((i / 13) % 3) as usize].to_string();
         let kind_ix = (i / setups.len() as u64) % 5;
         let kind = match kind_ix {
             0 | 1 => "enumerate",
@@ -343,6 +345,7 @@ impl Check for C17 {
         let p_prep = gen_proc(&mut pr);
         let mut p_gold = gen_proc(&mut pr);
         p_gold.chunk_seed = None; // fault points must be stable between the golden and the faulty run
+        p_gold.trace_reads = true; // read-side fault points (source files) are enumerated too
         let p_recover = gen_proc(&mut pr);
         let mut sr = r.split("seq");
         let mut seq = vec![];
@@ -391,7 +394,7 @@ impl Check for C17 {
             recovery_fault = None;
         }
         let obstacles = ["out_is_file", "parent_is_file", "dangling_symlink", "dir_squats_types", "dir_squats_cache", "dir_squats_index", "name_too_long", "dir_squats_commands"];
-        let obstacle = obstacles[((i / 32) % obstacles.len() as u64) as usize].to_string();
+        let obstacle = obstacles[(i % obstacles.len() as u64) as usize].to_string();
         serde_json::to_value(Case {
             kind: kind.into(),
             prestate,
@@ -640,6 +643,29 @@ impl Check for C17 {
                     n_inj += 1;
                     co.tags.push(format!("{}/{}:{}/{}", scen_label, tgt, e.op.name(), fl));
                     co.reach("file_x_op_x_kind", format!("{}:{}/{}", tgt, e.op.name(), fl));
+                }
+            }
+            // read side: every open/read of a SOURCE file of the golden run. (Configuration files
+            // are left alone: the tool documents a fall-back to defaults for an unusable
+            // configuration, which is not a failed run.)
+            let read_points: Vec<Event> = gold.res.trace.iter().filter(|e| e.rseq.is_some() && e.path.ends_with(".rs") && e.ret >= 0).cloned().collect();
+            for e in &read_points {
+                let k = e.rseq.unwrap() as usize;
+                let kinds: Vec<FaultKind> = match e.op {
+                    Op::OpenR => vec![FaultKind::Err(libc::EIO), FaultKind::Err(libc::EACCES), FaultKind::Eintr],
+                    Op::Read if e.ret > 0 => vec![FaultKind::Err(libc::EIO), FaultKind::ShortRead { k: (e.ret as usize / 2).max(1) }, FaultKind::Eintr],
+                    _ => vec![],
+                };
+                for kind in kinds {
+                    if c.only.is_some() {
+                        continue;
+                    }
+                    let fl = fault_label(&kind);
+                    let what = format!("{} at read point {} ({} {}) in a {} run [{}]", fl, k, e.op.name(), e.path.rsplit('/').next().unwrap_or(""), c.prestate, c.setup.label());
+                    let sig_tail = format!("<source>:{}/{}/{}", e.op.name(), fl, c.prestate);
+                    judge(env, &mut co, &sc, &[vec![FaultSpec { at: FaultAt::Read(k), kind: kind.clone() }]], &what, &sig_tail, json!(null), None);
+                    n_inj += 1;
+                    co.reach("file_x_op_x_kind", format!("<source>:{}/{}", e.op.name(), fl));
                 }
             }
             co.count("fault_injections", n_inj);
